@@ -36,7 +36,9 @@ def run(ctx):
     ctx.rule('C02.5', 'in the compaction spawn/schedule entry points every call that can reach EventLog::append is reachable only through the false edge of the dry_run test and of planned.is_empty(); provider_cursor_rotate_v1 appends only on the Some(target) edge.')
 
     # ---------------------------------------------------------------- C02.1
-    new = P.fn('rip_log::EventLog::new')
+    from ..inline import inline_calls as _inl_new
+    # a private `open_for_append(path)` helper of rip-log is spliced into the constructor
+    new = _inl_new(P, P.fn('rip_log::EventLog::new'), lambda body, callee: callee.startswith('rip_log::') and not callee.endswith('::new'), depth=2, note=ctx.note)
     oo = new.calls(r'^std::fs::OpenOptions::')
     names = [s.name for s in oo]
     ctx.floor('C02.1', 'OpenOptions calls in EventLog::new', len(oo), 3)
